@@ -99,6 +99,7 @@ type tcase struct {
 	Ovr   []ovr    `json:"ovr,omitempty"`
 	Ev    *evCase  `json:"ev,omitempty"`
 	Cor   *corCase `json:"cor,omitempty"`
+	Reg   *regCase `json:"reg,omitempty"` // a highly regular batch, expanded by buildMap (regular_test.go)
 }
 
 // ---------------------------------------------------------------------------------------------
@@ -459,6 +460,9 @@ func genMapCase(rng *rand.Rand, cfg string, idx int) *tcase {
 // buildMap feeds the datapoints of a case through the real MetricMap.Receive and applies the overrides.
 func buildMap(c *tcase) *gostatsd.MetricMap {
 	mm := gostatsd.NewMetricMap(false)
+	if c.Reg != nil {
+		c.Reg.fill(mm)
+	}
 	for _, d := range c.DPs {
 		mm.Receive(&gostatsd.Metric{Name: d.N, Type: gostatsd.MetricType(d.T), Value: math.Float64frombits(d.V), StringValue: d.Str, Rate: math.Float64frombits(d.R),
 			Tags: append(gostatsd.Tags(nil), d.Tags...), Source: gostatsd.Source(d.S), Timestamp: gostatsd.Nanotime(1000 + len(d.N))})
@@ -681,6 +685,7 @@ func diffEvent(got, want evFields) []string {
 }
 
 type checker struct {
+	reg        ratios
 	r          *mon.Run
 	rigs       map[string]*rig
 	decodeTick int
@@ -719,7 +724,11 @@ func (c *checker) valid(tc *tcase) *recReq {
 	}
 	if !ok {
 		g.broken = true
-		r.Inconclusive("forwarder-flush-watchdog")
+		shape := tc.Kind
+		if tc.Reg != nil {
+			shape = fmt.Sprintf("%s/n=%d/series=%d/taglen=%d", tc.Reg.Shape, tc.Reg.N, tc.Reg.Series, tc.Reg.TagLen)
+		}
+		r.Inconclusive("forwarder-flush-watchdog:" + tc.Cfg + ":" + shape)
 		return nil
 	}
 	r.Eval(1)
@@ -729,11 +738,15 @@ func (c *checker) valid(tc *tcase) *recReq {
 	if tc.Kind == "event" {
 		wantPath = "/v2/event"
 	}
+	fam := ""
+	if tc.Reg != nil {
+		fam = ":regular"
+	}
 	r.Event("forwarder_requests", len(reqs))
 	for _, q := range reqs {
 		r.Event("content_encoding:"+q.Enc, 1)
 		if q.Status < 200 || q.Status > 299 {
-			r.Violation(fmt.Sprintf("valid-body-rejected:%s:%s", q.Path, strings.SplitN(tc.Cfg, "-", 2)[0]),
+			r.Violation(fmt.Sprintf("valid-body-rejected:%s:%s%s", q.Path, strings.SplitN(tc.Cfg, "-", 2)[0], fam),
 				fmt.Sprintf("config %s: the forwarder's own request to %s (Content-Encoding %q, %d bytes) was answered %d %s; %d map / %d event dispatches", tc.Cfg, q.Path, q.Enc, len(q.Body), q.Status, q.Err, len(maps), len(events)), tc)
 		}
 		if q.Path != wantPath {
@@ -745,15 +758,18 @@ func (c *checker) valid(tc *tcase) *recReq {
 		nDispatch = len(events)
 	}
 	if nDispatch != 1 || len(maps)+len(events) != 1 {
-		r.Violation(fmt.Sprintf("dispatch-count:%s:%s", tc.Kind, cmpWord(nDispatch)),
+		r.Violation(fmt.Sprintf("dispatch-count:%s:%s%s", tc.Kind, cmpWord(nDispatch), fam),
 			fmt.Sprintf("config %s: one %s given to the forwarder, the ingesting server dispatched %d maps and %d events (%d requests seen)", tc.Cfg, tc.Kind, len(maps), len(events), len(reqs)), tc)
 		return nil
 	}
 	if tc.Kind == "map" {
 		if d := ref.Diff(maps[0], wantMap, noTS); len(d) > 0 {
-			r.Violation("roundtrip-map:"+diffClass(d[0]), fmt.Sprintf("config %s, %d series: %s", tc.Cfg, len(wantMap), strings.Join(first(d, 6), " | ")), tc)
+			r.Violation("roundtrip-map:"+diffClass(d[0])+fam, fmt.Sprintf("config %s, %d series: %s", tc.Cfg, len(wantMap), strings.Join(first(d, 6), " | ")), tc)
 		}
 		c.classifyMap(tc, wantMap)
+		if len(reqs) >= 1 {
+			c.noteRegular(tc, reqs[0].Enc, reqs[0].Body, "sequential")
+		}
 	} else {
 		if d := diffEvent(events[0], wantEv); len(d) > 0 {
 			r.Violation("roundtrip-event:"+strings.SplitN(d[0], " ", 2)[0], fmt.Sprintf("config %s: %s", tc.Cfg, strings.Join(d, "; ")), tc)
@@ -1059,7 +1075,7 @@ func TestCheck(t *testing.T) {
 	defer r.Finish()
 	logrus.SetOutput(io.Discard)
 	debug.SetGCPercent(400) // lz4 streams allocate 4 MiB blocks on both sides; collect less often
-	r.Rule("cases: (a) a fresh MetricMap (1..40, sometimes up to 1800 datapoints over small pools of valid-UTF-8 names / tags / sources / set members incl. empty tag lists, empty sources, empty set member, NUL and 4-byte runes; all four types; gauge and timer values from arbitrary bit patterns incl. NaN, ±Inf, ±0, denormals, ±MaxFloat64; sampled rates; extreme counters and arbitrary sampled counts written into the aggregate) or (b) an event (all 8 priority x alert combinations, empty fields, nil / empty / filled tags, multi-line text, zero / negative / huge dates) is given to a real HttpForwarderHandlerV2 of one of 22 compression configurations (off, none, zlib 0-9, lz4 0-9; configurations cycle so every one is used equally), flushed by hand, and compared with what the real ingestion router dispatched; (c) 4-5 corruptions of the recorded request bytes of every such case (truncate, bit flips, wrong / unknown Content-Encoding label, garbage, other endpoint, trailing bytes, deleted byte, body shorter than Content-Length over raw TCP) are posted to the router and judged against the harness' own decompress + proto.Unmarshal. (d) retry: the first attempt of a forwarder (map with all four types or event; off / none / zlib / lz4, all 22 configurations in thorough) is answered 503 / 500 / connection reset by a front that has read the whole body, the forwarder's own retry is let through to the real router: re-sent bytes and headers equal the first attempt's, exactly one dispatch equal to the input; (e) concurrent: rounds in which 9 real forwarders and 16 direct posters of previously recorded forwarder bytes are released together against one router, bodies of four size classes (20 .. 5500 datapoints, events up to 20 KiB), each request with a unique id in a tag / the title: all 2xx, per id as many dispatches as 2xx answers, each equal to its own input, no mixture. Non-trivial: a map with >= 3 metric types and a series with both source and tags, distinct by (type mix, compression configuration, non-finite values present); an event with tags and a source, distinct by (priority, alert type, configuration); a corrupt body, distinct by (endpoint, corruption kind, harness-decodable, status class); a retry case by (item, fault, configuration); a concurrent request by (sender, item, encoding, body size class).")
+	r.Rule("cases: (a) a fresh MetricMap (1..40, sometimes up to 1800 datapoints over small pools of valid-UTF-8 names / tags / sources / set members incl. empty tag lists, empty sources, empty set member, NUL and 4-byte runes; all four types; gauge and timer values from arbitrary bit patterns incl. NaN, ±Inf, ±0, denormals, ±MaxFloat64; sampled rates; extreme counters and arbitrary sampled counts written into the aggregate) or (b) an event (all 8 priority x alert combinations, empty fields, nil / empty / filled tags, multi-line text, zero / negative / huge dates) is given to a real HttpForwarderHandlerV2 of one of 22 compression configurations (off, none, zlib 0-9, lz4 0-9; configurations cycle so every one is used equally), flushed by hand, and compared with what the real ingestion router dispatched; (c) 4-5 corruptions of the recorded request bytes of every such case (truncate, bit flips, wrong / unknown Content-Encoding label, garbage, other endpoint, trailing bytes, deleted byte, body shorter than Content-Length over raw TCP) are posted to the router and judged against the harness' own decompress + proto.Unmarshal. (a') every 13th map case is a highly regular batch (timers with 1 500 - 280 000 identical or slowly varying samples, 100 - 12 000 series differing in a numeric tag suffix, sets with runs of similar members, all-zero gauges, tags of up to 3 500 equal characters; three size classes up to several MB inflated, the largest only for off / none / zlib / lz4 0-2), whose inflated/compressed ratio is measured with the harness' decompressor and recorded (regular_ratio:* events, regular_max_* extras); (d) retry: the first attempt of a forwarder (map with all four types or event; off / none / zlib / lz4, all 22 configurations in thorough) is answered 503 / 500 / connection reset by a front that has read the whole body, the forwarder's own retry is let through to the real router: re-sent bytes and headers equal the first attempt's, exactly one dispatch equal to the input; (e) concurrent: rounds in which 9 real forwarders and 16 direct posters of previously recorded forwarder bytes are released together against one router, bodies of four size classes (20 .. 5500 datapoints, events up to 20 KiB), each request with a unique id in a tag / the title: all 2xx, per id as many dispatches as 2xx answers, each equal to its own input, no mixture. Non-trivial: a map with >= 3 metric types and a series with both source and tags, distinct by (type mix, compression configuration, non-finite values present); an event with tags and a source, distinct by (priority, alert type, configuration); a corrupt body, distinct by (endpoint, corruption kind, harness-decodable, status class); a retry case by (item, fault, configuration); a concurrent request by (sender, item, encoding, body size class); a regular batch by (workload, shape, configuration, ratio bucket).")
 	r.Assume("compress/zlib, pierrec/lz4 and google.golang.org/protobuf (with the generated pb package) define what a decodable body is; the harness calls them itself, not through pkg/web")
 	r.Assume("ref.FromMap flattening, taken before the map is handed to the forwarder, is a faithful copy of the input")
 
@@ -1125,10 +1141,14 @@ func TestCheck(t *testing.T) {
 		var tc *tcase
 		if i%4 == 3 {
 			tc = genEventCase(rng, cfg.Name, i/4+shard)
+		} else if i%13 == 5 {
+			// highly regular batch; one in eight inflates to well over 1 MiB
+			size := []int{0, 1, 0, 2, 0, 1, 0, 1}[(i/13)%8]
+			tc = genRegularCase(rng, cfg.Name, i, size)
 		} else {
 			tc = genMapCase(rng, cfg.Name, i)
 		}
-		r.Case("%s #%d cfg=%s", tc.Kind, i, cfg.Name)
+		r.Case("%s #%d cfg=%s reg=%+v", tc.Kind, i, cfg.Name, tc.Reg)
 		t0 := time.Now()
 		q := c.valid(tc)
 		tValid += time.Since(t0)
@@ -1139,8 +1159,8 @@ func TestCheck(t *testing.T) {
 				defer ng.close()
 			}
 		}
-		if q == nil {
-			continue
+		if q == nil || len(q.Body) > 256<<10 {
+			continue // (no corruptions of very large bodies: they cost much and add nothing)
 		}
 		for _, cc := range corruptions(rng, tc, q, perValid) {
 			r.Case("corrupt %s #%d cfg=%s enc=%s path=%s body=%s", cc.Cor.How, i, cfg.Name, cc.Cor.Enc, cc.Cor.Path, trimHex(cc.Cor.BodyHex))
@@ -1157,6 +1177,10 @@ func TestCheck(t *testing.T) {
 	r.Extra("ms_valid_cases", tValid.Milliseconds())
 	r.Extra("ms_corrupt_cases", tCorrupt.Milliseconds())
 	r.Extra("ms_short_read_cases", tShort.Milliseconds())
+	c.reg.mu.Lock()
+	r.Extra(fmt.Sprintf("regular_max_ratio_shard%d", shard), c.reg.max)
+	r.Extra(fmt.Sprintf("regular_max_inflated_bytes_shard%d", shard), c.reg.inflated)
+	c.reg.mu.Unlock()
 }
 
 // replayCase is what a replay file's "case" member decodes into: a sequential case itself, or the
